@@ -66,6 +66,18 @@ SPECS = {
                      "rejected call followed by state comparison (PartialEq on every part of the member state; secret trees up to "
                      "observational equivalence of every (leaf, key type, generation<=6) key) and the follow-up oracle (genuine message "
                      "accepted, then the member sends and a peer accepts); distinct = distinct (kind, class, error kind) cells"),
+    "C05": dict(shards=(8, 32), level="exploration", post="c05_post",
+                floors={"quick": {"delivery:fresh": 1500, "delivery:replay_or_reused_generation": 300, "delivery:beyond_window": 2,
+                                  "gap_stream_sent": 8, "receiver_reloaded_mid_stream": 50, "stale_sender_restored": 15,
+                                  "offline_content_seals": 10000, "offline_handshake_keys": 20, "offline_application_keys": 5000,
+                                  "offline_repeated_keys_with_distinct_nonce": 10}},
+                show=("histories", "epochs", "delivery", "gap", "refused", "stale", "receiver_reloaded", "offline_"),
+                rule="per epoch several senders stream application and (when handshake encryption is on) handshake messages; one stream has a "
+                     "gap of 1021..1026 generations actually encrypted; one sender is restored from a state saved before it sent; every "
+                     "receiver gets its own permutation with duplicates and is reloaded mid-stream; every delivery is compared with a ratchet "
+                     "model (accepted iff generation unused and <= next+1024); offline every recorded content aead_seal is checked for "
+                     "(key, nonce) uniqueness and key-type separation; one evaluation = one delivery or one seal event; distinct = distinct "
+                     "(context, key type, expectation, gap class) cells + (history, epoch, type, member) groups"),
     "C06": dict(shards=(8, 32), level="exploration",
                 floors={"quick": {"lockstep_steps": 1500, "crash_points": 100, "provider_equivalence_checked": 150,
                                   "reload_at:commit_created_pending": 25, "reload_at:received_commit": 80,
@@ -180,6 +192,16 @@ SPECS = {
                      "permuted order); the verdict is computed from the identity sets; old-group freeze checked on every member (own build and "
                      "a commit forged by an insider ignoring the freeze); mismatched joins (plain Client::join_group, Welcome of epoch 2, "
                      "resumption secret of another epoch); distinct = distinct (flow, variant, key change) cells"),
+    "C19": dict(shards=(8, 32), level="exploration",
+                floors={"quick": {"late_expected_ok": 800, "late_expected_err": 300, "late_sender_leaf_vacated_or_rekeyed": 40,
+                                  "storage_contents_checked": 800, "late_refused_with:EpochNotFound": 150,
+                                  "late_refused_with:MemberNotFound": 40, "write_pattern:0": 100, "write_pattern:1": 50, "write_pattern:3": 50}},
+                show=("histories", "commit_accepted", "late_", "storage_contents", "write_pattern", "config", "reloaded"),
+                rule="histories over retention 1,2,3,5 x both providers (and both at once) x write patterns {every epoch, every third, never, "
+                     "bursts} with removals, leaf reuse and identity changes; application messages aged 0..R+3 epochs are delivered late and "
+                     "compared with a retention model (pending/stored per member) and the sender-key-at-leaf rule; storage contents compared "
+                     "with the model after every write; one evaluation = one late delivery or one storage comparison; distinct = distinct "
+                     "(age, retained, sender key unchanged, was member, R) cells"),
     "C20": dict(shards=(4, 4), level="exploration", exhaustive=True,
                 floors={"quick": {"sizes_exhaustive": 13, "sizes_sampled": 12, "outside_nodes": 26}},
                 show=("sizes_", "inside_nodes", "outside_nodes", "lca_pairs"),
